@@ -10,6 +10,9 @@ def norm_leaf(db, leaf):
             return 'val:%d' % int(leaf[4:])
         except ValueError:
             return leaf
+    if leaf.startswith('idx:'):
+        body = leaf[4:].split('=')[0]
+        return 'idx:' + body.split('::')[-1]
     if leaf.startswith('const:'):
         body = leaf[6:]
         path, _, v = body.partition('=')
@@ -42,7 +45,8 @@ class Entry:
         self.name, self.rel = name, rel
         self.lhs, self.rhs = frozenset(lhs), frozenset(rhs)
         self.covers = covers
-        self.opt = frozenset(opt)
+        self.open = opt is None       # opt=None: listed leaves required, any further leaves allowed
+        self.opt = frozenset(opt or ())
         self.why = why
         self.alts = alts or []      # alternative (rel, lhs, rhs) forms
         self.required = required
@@ -67,6 +71,8 @@ class Entry:
         return False
 
     def _side(self, have, want):
+        if self.open:
+            return want <= have
         return want <= have and (have - want) <= self.opt
 
 
